@@ -9,7 +9,7 @@ SCR=$(mktemp -d /tmp/seedconfirm.XXXX)
 rsync -a --exclude .git --exclude __pycache__ /repo/ $SCR/repo/
 mkdir -p $SCR/home $SCR/tmp
 # the demonstrations were written to live in <repo>/seeded_out/ (they find the selftests' helpers relative to themselves)
-mkdir -p $SCR/repo/seeded_out; cp /verif/$DIR/demo.py $SCR/repo/seeded_out/demo.py
+mkdir -p $SCR/repo/seeded_out; cp /verif/$DIR/*.py $SCR/repo/seeded_out/
 DEMO=$SCR/repo/seeded_out/demo.py
 (cd $SCR/repo && HOME=$SCR/home TMPDIR=$SCR/tmp PYTHONPATH=$SCR/repo timeout 1800 /venv/bin/python $DEMO > $SCR/demo_without.log 2>&1); WITHOUT=$?
 (cd $SCR/repo && patch -p1 -s < /verif/$DIR/patch.diff) || { echo "patch does not apply"; rm -rf $SCR; exit 2; }
